@@ -82,7 +82,8 @@ class _Index(object):
         out = self._view()
         if dtype is not None and np.dtype(dtype) != out.dtype:
             return out.astype(dtype)
-        return out
+        # the binding exposes the buffer protocol, so numpy.array(x, copy=True) copies: honour numpy 2's copy keyword
+        return out.copy() if copy else out
 
     def __len__(self):
         return self._info()[2]
@@ -795,7 +796,7 @@ class NumpyArray(Content):
             out = np.asarray(core.Holder(ptr, shape, dt, strides, self))
         if dtype is not None and np.dtype(dtype) != out.dtype:
             return out.astype(dtype)
-        return out
+        return out.copy() if copy else out
 
     shape = property(lambda self: tuple(self._info()[2]))
     strides = property(lambda self: tuple(self._info()[3]))
